@@ -271,6 +271,10 @@ func (ex *Exec) callGhostEffects(st *State, cc *ssa.CallCommon, set map[string]b
 				set[gn] = true
 			}
 		}
+		if c.Arith || !c.Assumed {
+			// coarse (loop cut only): any verified callee counts as possibly running an arith operation
+			set["opseen"], set["opmeter"] = true, true
+		}
 	}
 	if cc.IsInvoke() {
 		c, _ := ex.ifaceContract(cc.Value.Type(), cc.Method)
@@ -396,4 +400,96 @@ func (ex *Exec) refineUFun(name string, t *Term, args []*Term) {
 			ex.Refine = append(ex.Refine, Implies(And(IGe(x, IntBig(Pow2(64*(k-1)))), ILt(x, IntBig(Pow2(64*k)))), Eq(t, IntC(int64(k)))))
 		}
 	}
+}
+
+// mayArith: may a call of f run a dependency operation marked "arith" (directly, or through the functions it
+// calls)? A static over-approximation over the SSA bodies: calls that cannot be resolved count as yes.
+func (ex *Exec) mayArith(f *ssa.Function, depth int) bool {
+	p := ex.P
+	if p.arithMemo == nil {
+		p.arithMemo = map[*ssa.Function]int{}
+	}
+	switch p.arithMemo[f] {
+	case 1:
+		return false
+	case 2:
+		return true
+	case 3:
+		return false // recursion: decided by the other calls on the cycle
+	}
+	p.arithMemo[f] = 3
+	res := false
+	c := p.CS.Funcs[funcKey(f)]
+	if c == nil {
+		if wc, ok := p.CS.Funcs["*."+f.Name()]; ok && f.Parent() == nil {
+			c = wc
+		}
+	}
+	if c != nil && c.Arith {
+		res = true
+	} else if c != nil && c.Assumed {
+		res = false
+	} else if f.Blocks == nil || depth > 12 {
+		res = true
+	} else {
+	scan:
+		for _, b := range f.Blocks {
+			for _, ins := range b.Instrs {
+				var cc *ssa.CallCommon
+				switch y := ins.(type) {
+				case *ssa.Call:
+					cc = y.Common()
+				case *ssa.Defer:
+					cc = y.Common()
+				case *ssa.Go:
+					res = true
+					break scan
+				case *ssa.MakeClosure:
+					if g, ok := y.Fn.(*ssa.Function); ok && ex.mayArith(g, depth+1) {
+						res = true
+						break scan
+					}
+				}
+				if cc == nil {
+					continue
+				}
+				if _, isB := cc.Value.(*ssa.Builtin); isB {
+					continue
+				}
+				if cc.IsInvoke() {
+					ic, _ := ex.ifaceContract(cc.Value.Type(), cc.Method)
+					if ic == nil {
+						if wc, ok := p.CS.Funcs["*."+cc.Method.Name()]; ok {
+							ic = wc
+						}
+					}
+					if ic != nil && ic.Assumed && !ic.Arith {
+						continue
+					}
+					res = true
+					break scan
+				}
+				g := cc.StaticCallee()
+				if g == nil {
+					if _, ok := cc.Value.(*ssa.MakeClosure); ok {
+						continue // the closure's body was looked at where it is made
+					}
+					if _, ok := cc.Value.(*ssa.Parameter); ok || true {
+						res = true
+						break scan
+					}
+				}
+				if ex.mayArith(g, depth+1) {
+					res = true
+					break scan
+				}
+			}
+		}
+	}
+	if res {
+		p.arithMemo[f] = 2
+	} else {
+		p.arithMemo[f] = 1
+	}
+	return res
 }
